@@ -155,7 +155,7 @@ Definition audited : list audit := [
   A "object" "object.go" "First" "slice" 1 U "[]rune(s)[:1] after s != """"";
   A "object" "object.go" "Function.lambdaPrint" "indexc" 2 U "Statements[0] after len(Statements) != 1 short-circuit";
   A "object" "object.go" "Hashable" "assert" 1 U "o.(Float) under case FLOAT";
-  A "object" "object.go" "Identical" "assert" 6 U "a.(T) / b.(T) under case a.Type() of that very type after a.Type()==b.Type(); Type() is faithful to the Go type (REFERENCE and REGISTER are types of their own; only SmallMap/*BigMap have type MAP)";
+  A "object" "object.go" "Identical" "assert" 8 U "(fix 865033d added a.(Function) / b.(Function) under case FUNC: only Function has type FUNC) a.(T) / b.(T) under case a.Type() of that very type after a.Type()==b.Type(); Type() is faithful to the Go type (REFERENCE and REGISTER are types of their own; only SmallMap/*BigMap have type MAP)";
   A "object" "object.go" "Identical" "index" 6 U "ae[i]/be[i] and am[i]/bm[i] with i from range over ae / am after len(ae)==len(be), len(am)==len(bm)";
   A "object" "object.go" "Hashable" "slice" 2 U "smallArr[:len], smallKV[:len] with len <= capacity by construction";
   A "object" "object.go" "lambdaBodyNeedsBraces" "index" 1 U "map lookup ast.Precedences[type]";
